@@ -26,10 +26,23 @@ var Epoch = time.Date(2000, 1, 1, 0, 0, 0, 0, time.UTC)
 // AtVirtual runs f inside a fresh synctest bubble after advancing the virtual clock by offset,
 // so that every time.Now() made by the code under test reads Epoch+offset (until f sleeps).
 func AtVirtual(t *testing.T, offset time.Duration, f func()) {
-	synctest.Test(t, func(t *testing.T) {
-		if offset > 0 {
-			time.Sleep(offset)
-		}
-		f()
-	})
+	// synctest.Test ends the calling goroutine (t.FailNow -> runtime.Goexit) when the bubble's sub-test was marked failed,
+	// e.g. by "race detected during execution of test": run it on a goroutine of its own so that the caller survives, and
+	// hand a panic of synctest itself (bubble deadlock) back to the caller.
+	done := make(chan struct{})
+	var pv any
+	go func() {
+		defer close(done)
+		defer func() { pv = recover() }()
+		synctest.Test(t, func(t *testing.T) {
+			if offset > 0 {
+				time.Sleep(offset)
+			}
+			f()
+		})
+	}()
+	<-done
+	if pv != nil {
+		panic(pv)
+	}
 }
